@@ -1415,6 +1415,15 @@ example : (appendOp ⟨[0, 1, 2, 3, 4, 5, 6, 7], ⟨0, 8, [(2, 4), (3, 1)]⟩⟩
       minDataLen (resizeDim [(2, 4), (3, 1)] 1 (3 + 1))) :=
   ⟨by rfl, by decide, by unfold WF; decide, by decide⟩
 
+/-- Non-vacuity of `c09_clip_dim`: an owned 2×4 tensor clipped to columns 1..3 (evaluated), both
+sides; and a rejected request (`end > size`) panics on both sides. -/
+example : (clipDim ⟨[0, 1, 2, 3, 4, 5, 6, 7], ⟨0, 8, [(2, 4), (4, 1)]⟩⟩ 1 1 3).map TState.arr =
+      .ok ⟨[2, 2], [1, 2, 5, 6]⟩ ∧
+    NArr.sliceAxis 1 1 3 (⟨[2, 4], [0, 1, 2, 3, 4, 5, 6, 7]⟩ : NArr Nat) = .ok ⟨[2, 2], [1, 2, 5, 6]⟩ ∧
+    (clipDim ⟨[0, 1, 2, 3, 4, 5, 6, 7], ⟨0, 8, [(2, 4), (4, 1)]⟩⟩ 1 1 5).map TState.arr = .error .panic ∧
+    NArr.sliceAxis 1 1 5 (⟨[2, 4], [0, 1, 2, 3, 4, 5, 6, 7]⟩ : NArr Nat) = .error .panic :=
+  ⟨by rfl, by rfl, by rfl, by rfl⟩
+
 /-! ## T2: chains of operations compose -/
 
 /-- The view operations covered by a T1 theorem above. -/
@@ -1794,9 +1803,8 @@ theorem c09_slice_copy_old_accepts_bad_index :
       (TState.arr ⟨[], ⟨0, 0, [(2, 1), (0, 2)]⟩⟩) = .error .panic :=
   ⟨by rfl, by rfl⟩
 
-/-- The fixed code on the same two inputs (evaluated examples, i.e. tests — the general
-`slice_copy` = reference statement for the fixed model is not proved yet; it is tied to the code
-and to the naive reference by the correspondence check only). -/
+/-- The fixed code on the same two inputs (evaluated examples, i.e. tests; the general statements
+for the fixed model are `c09_slice_copy_fast` and `c09_slice_copy_ranges`). -/
 theorem c09_slice_copy_fixed_witnesses :
     sliceCopy ⟨[0, 1, 2], ⟨0, 3, [(3, 1), (1, 1)]⟩⟩ [.range ⟨-1, none, -2⟩] =
       .ok (TState.ofArr ⟨[2, 1], [2, 0]⟩) ∧
